@@ -59,6 +59,7 @@ func init() {
 		"(reflect.rtype).Field":           ext۰reflect۰rtype۰Field,
 		"(reflect.rtype).In":              ext۰reflect۰rtype۰In,
 		"(reflect.rtype).Kind":            ext۰reflect۰rtype۰Kind,
+		"(reflect.rtype).Name":            ext۰reflect۰rtype۰Name,
 		"(reflect.rtype).NumField":        ext۰reflect۰rtype۰NumField,
 		"(reflect.rtype).NumIn":           ext۰reflect۰rtype۰NumIn,
 		"(reflect.rtype).NumMethod":       ext۰reflect۰rtype۰NumMethod,
